@@ -224,13 +224,16 @@ def adapt_sql(sql, paramstyle):
     args = []
     kwargs = {}
     original_sql = sql
-    if paramstyle in ('format', 'pyformat'): sql = sql.replace('%', '%%')
+    if paramstyle in ('format', 'pyformat'):
+        def escape(text): return text.replace('%', '%%')  # only in the SQL text, not inside $expressions
+    else:
+        def escape(text): return text
     while True:
         try: i = sql.index('$', pos)
         except ValueError:
-            result.append(sql[pos:])
+            result.append(escape(sql[pos:]))
             break
-        result.append(sql[pos:i])
+        result.append(escape(sql[pos:i]))
         if sql[i+1] == '$':
             result.append('$')
             pos = i+2
